@@ -1,4 +1,223 @@
+"""Positive controls: tiny synthetic snippets (not repo code) that each rule family must flag on
+every run.  A silent control means the rule has gone blind -> exit 2 (never a verdict)."""
+import ast
+import types
+
+from .common import AnalysisError
+from . import flow as F
+from . import e1
+from . import paths as P
+
+
+class _Cfg:
+    def __init__(self, cls, children, **kw):
+        self.cls, self.children, self.kwargs, self.args, self.post = cls, children, kw, [], {}
+        self.ctx = False
+        self.label = f'control:{cls}'
+
+    @property
+    def key(self):
+        return self.label
+
+
+class _Obj:
+    class cls:
+        name = 'Control'
+        module = types.SimpleNamespace(rel='controls')
+
+        @staticmethod
+        def has(n):
+            return False
+
+
+def _built(cls, src, children, AS, CP, **kw):
+    b = types.SimpleNamespace()
+    b.cfg = _Cfg(cls, children, **kw)
+    b.src, b.AS, b.CP = src, AS, CP
+    b.tree = ast.parse(src)
+    b.obj = _Obj()
+    return b
+
+
+CH = lambda **k: types.SimpleNamespace(AS=False, CP=True, kind=None, **k)
+
+E1_CONTROLS = [
+    # (what must fire, class, skeleton, children, AS, CP)
+    ('G1-no-trace', 'Opt', """
+(_status, _result, _pos) = __CHILD__('e', _pos)
+if not _status:
+    _result = None
+    _status = True
+""", {'e': CH()}, True, False),
+    ('G2-cp-sound', 'Seq', """
+while True:
+    (_status, _result, _pos) = __CHILD__('c0', _pos)
+    if not _status:
+        break
+    (_status, _result, _pos) = __CHILD__('c1', _pos)
+    if not _status:
+        break
+    _result = [_result]
+    break
+""", {'c0': types.SimpleNamespace(AS=False, CP=False, kind=None), 'c1': types.SimpleNamespace(AS=False, CP=False, kind=None)},
+     False, False),
+    ('G2-as-sound', 'Choice', """
+(_status, _result, _pos) = __CHILD__('c0', _pos)
+""", {'c0': CH()}, True, False),
+    ('G3-protocol', 'Fail', """
+_result = 'not an error function'
+_status = False
+""", {}, False, True),
+    ('S-choice-order', 'Choice', """
+backtrack1 = _pos
+(_status, _result, _pos) = __CHILD__('c0', _pos)
+_pos = backtrack1
+(_status, _result, _pos) = __CHILD__('c1', _pos)
+""", {'c0': CH(), 'c1': CH()}, False, True),
+]
+
+
 def e1_controls(rep):
-    pass
+    for want, cls, src, children, AS, CP in E1_CONTROLS:
+        b = _built(cls, src.strip() + '\n', children, AS, CP)
+        try:
+            an = e1.Analysis(b)
+            found = {f.rule for f in e1.generic(b, an)}
+            if cls in e1.SPECS and want.startswith('S-'):
+                msgs = []
+                e1.SPECS[cls](b, an, lambda r, m: msgs.append(r))
+                found |= set(msgs)
+        except Exception as e:
+            rep.error(f'positive control for {want} could not be analysed: {e!r}')
+            continue
+        rep.count('positive controls evaluated')
+        if want not in found:
+            rep.error(f'positive control silent: rule {want} did not flag its synthetic violation '
+                      f'(flagged: {sorted(found)})')
+
+
 def trampoline_controls(rep):
+    from . import trampoline
+    src = '''
+def _run(text, pos, start, fullparse):
+    memo = {}
+    result = None
+    key = (3, start, pos)
+    gtor = start(text, pos)
+    stack = [(key, gtor)]
+    while stack:
+        key, gtor = stack[-1]
+        result = gtor.send(result)
+        if result[0] != 3:
+            stack.pop()
+        elif result in memo:
+            result = memo[result]
+        else:
+            gtor = result[1](text, result[2])
+            stack.append((result, gtor))
+            result = None
+    return result
+'''
+    fn = ast.parse(src).body[0]
+    try:
+        roles, bad, stats = trampoline.analyse(fn, 3, False, 'control')
+    except AnalysisError as e:
+        rep.error(f'positive control for C07-memo-store could not be analysed: {e}')
+        return
+    rep.count('positive controls evaluated')
+    if 'C07-memo-store' not in {r for r, _ in bad}:
+        rep.error('positive control silent: C07-memo-store did not flag a driver without the memo store')
+
+
+def walker_controls(rep):
+    from . import walkers
+    src = '''
+def visit(node):
+    visited = set()
+    stack = [node]
+    while stack:
+        node = stack.pop()
+        if isinstance(node, (list, tuple)):
+            stack.extend(node)
+        elif isinstance(node, dict):
+            stack.extend(reversed(node.values()))
+        elif isinstance(node, ParsedObject):
+            node_id = id(node)
+            if node_id in visited:
+                continue
+            visited.add(node_id)
+            yield node
+            if hasattr(node, '_fields'):
+                stack.extend(getattr(node, x) for x in reversed(node._fields))
+'''
+    fn = ast.parse(src).body[0]
+    found = []
+    try:
+        walkers.check_visit(fn, 'control', lambda r, m: found.append(r))
+    except AnalysisError as e:
+        rep.error(f'positive control for C15-lifo could not be analysed: {e}')
+        return
+    rep.count('positive controls evaluated')
+    if 'C15-lifo' not in found:
+        rep.error('positive control silent: C15-lifo did not flag a push without reversed')
+
+
+def sharedstate_controls(rep):
+    from . import sharedstate
+    src = '''
+_cache = {}
+def f(text):
+    if text in _cache:
+        return _cache[text]
+    _cache[text] = len(text)
+    return _cache[text]
+def g(x, acc=[]):
+    acc.append(x)
+    return acc
+'''
+    found, n = sharedstate.scan(ast.parse(src), 'control')
+    rules = {r for r, _, _ in found}
+    rep.count('positive controls evaluated', 2)
+    if 'C18-no-shared-store' not in rules:
+        rep.error('positive control silent: C18-no-shared-store did not flag a module-level cache')
+    if 'C18-no-cache' not in rules:
+        rep.error('positive control silent: C18-no-cache did not flag a mutable default argument')
+
+
+def affine_controls(rep):
+    from . import affine as A
+    x, y = A.sym('x'), A.sym('y')
+    rep.count('positive controls evaluated', 2)
+    # x >= y + 40  does not entail  x >= y + 42 ; it does entail x >= y + 40
+    if A.entails([A.ge(x, A.add(y, A.const(40)))], A.ge(x, A.add(y, A.const(42)))):
+        rep.error('positive control silent: the affine entailment accepts an invalid consequence')
+    if not A.entails([A.ge(x, A.add(y, A.const(42)))], A.ge(x, A.add(y, A.const(40)))):
+        rep.error('positive control: the affine entailment rejects a valid consequence')
+
+
+def route_controls(rep):
+    """conformance rule on a synthetic emitted module with an arity mismatch"""
+    from . import routes, modroute
+    src = '''
+def _run(text, pos, start, fullparse):
     pass
+def _parse_function_1(_text, _pos, r):
+    yield (_status, _result, _pos)
+def _try_T(_text, _pos, p):
+    yield (_status, _result, _pos)
+def _try_U(_text, _pos):
+    func1 = _ParseFunction(_try_T, (_parse_function_1,), ())
+    (_status, _result, _pos) = (yield (3, func1, _pos))
+    yield (_status, _result, _pos)
+'''
+    m = modroute.Emitted('control', src, False, False, None)
+    found = []
+    stats = {'callsites': 0, 'entries': 0}
+    try:
+        routes.conformance(m, lambda r, msg: found.append(r), stats)
+    except AnalysisError as e:
+        rep.error(f'positive control for CONV-arity could not be analysed: {e}')
+        return
+    rep.count('positive controls evaluated')
+    if 'CONV-arity' not in found:
+        rep.error('positive control silent: CONV-arity did not flag a bare helper passed with a missing argument')
